@@ -107,7 +107,24 @@ type parseObs struct {
 	Delay int64
 }
 
-func observeParse(opts int, std bool, spec string) (o parseObs) {
+// parseHangs: Parse calls that did not return within hangDeadline (e.g. a step of 0 reaching
+// the bit loop). After two of them the remaining parse inputs of the run are not run: each
+// costs the deadline and leaves a spinning goroutine, and the run is a violation already.
+var parseHangs int
+
+func observeParse(opts int, std bool, spec string) parseObs {
+	done := make(chan parseObs, 1)
+	go func() { done <- observeParseSync(opts, std, spec) }()
+	select {
+	case o := <-done:
+		return o
+	case <-time.After(hangDeadline):
+		parseHangs++
+		return parseObs{Class: "hang"}
+	}
+}
+
+func observeParseSync(opts int, std bool, spec string) (o parseObs) {
 	defer func() {
 		if r := recover(); r != nil {
 			o = parseObs{Class: "panic"}
@@ -160,6 +177,10 @@ func runParse(ctx *core.Ctx, in c04Input) error {
 	if in.Std && in.Opts != 380 {
 		return errors.New("c04: std requires opts=380")
 	}
+	if parseHangs >= 2 {
+		ctx.Sink.Count("parse/not-run-after-two-hangs")
+		return nil
+	}
 	obs := observeParse(in.Opts, in.Std, spec)
 	// the two oracles, asked exactly as README.md says
 	zoneOracle, durOracle := "None", "None"
@@ -195,6 +216,10 @@ func runParse(ctx *core.Ctx, in c04Input) error {
 	}
 	if obs.Class == "other" {
 		c.Direct, c.Note = 1, "Parse returned neither *SpecSchedule nor ConstantDelaySchedule nor an error"
+	}
+	if obs.Class == "hang" {
+		c.Coq = ""
+		c.Direct, c.Note = 2, fmt.Sprintf("Parse did not return within %v (the specification demands a schedule or an error)", hangDeadline)
 	}
 	ctx.Sink.Extra["variant"] = variant()
 	ctx.Sink.Count("kind=parse")
@@ -257,7 +282,7 @@ type nextRes struct {
 // microseconds to milliseconds (Second/Minute/Hour sets are non-empty: at most a few
 // thousand loop iterations), so the deadline is about 10^4 times the worst case. A call that
 // hangs keeps its goroutine spinning until the process exits, hence the budget.
-const hangDeadline = 6 * time.Second
+const hangDeadline = 8 * time.Second
 
 var (
 	hangsSeen  int
@@ -401,6 +426,7 @@ func runNext(ctx *core.Ctx, in c04Input) error {
 			"near_midnight_gap":        f.MidnightGap,
 			"near_midnight_overlap":    f.MidnightOverlap,
 			"near_off_hour_transition": f.OffHour,
+			"near_multi_hour_change":   f.MultiHour,
 		},
 		Class:    fmt.Sprintf("next/%d/%s/%s/%d", in.Opts, in.Expr, tab.fingerprintShort(), t),
 		Observed: map[string]any{"next": res.Obs, "go_reference": res.Ref},
@@ -451,6 +477,9 @@ func runNext(ctx *core.Ctx, in c04Input) error {
 	}
 	if f.DaySkip {
 		ctx.Sink.Count("next/near-day-skip")
+	}
+	if f.MultiHour {
+		ctx.Sink.Count("next/near-multi-hour-change")
 	}
 	ctx.Sink.Count("next/dst_shape=" + f.shape())
 	if !optEq(res.Obs, res.Ref) {
